@@ -16,8 +16,9 @@ MANIFEST = {
 THEOREMS = ['C14.postOrder_nodup', 'C14.eval_order', 'C14.eval_prefix', 'C14.eval_complete', 'C14.eval_postorder',
             'C14.depth_refused', 'C14.depth_error', 'C14.getCommand_prefix', 'C14.getCommand_enabled',
             'C14.owns_not_disabled', 'C14.dispatch_qualified', 'C14.dispatch_ambiguous', 'C14.ambiguous_runs_nothing',
-            'C14.dispatch_unique']
+            'C14.dispatch_unique', 'C14.special_table_ok', 'C14.canonicalName_idem']
 TRUSTED = ['Lean 4.33.0 kernel; axioms ⊆ {propext, Classical.choice, Quot.sound}',
+           'harness/extractors/canonicalname.py (the `special` characters of canonicalName → Gen/CanonicalName.lean)',
            'harness/c14.py: introspection of the loaded plugins (names, command methods, nested groups) into the model input; generators; canonicalisation of the bot\'s replies',
            'command bodies are abstract (behaviour fixed by the first letter of the synthetic command name, identically in harness/plugins/VtOrder*/plugin.py and in C14.vtBeh)']
 RULE = ('worlds = random settings of nesting maximum, reply.maximumLength, error.detailed, disabled commands, defaultPlugins, importantPlugins over the '
@@ -670,7 +671,7 @@ def load_corpus():
 QUICK = dict(full=30, mixed=60, deep=10, feed=12, disp=80, canon=10)
 
 def run(ctx):
-    build = leanbuild.ensure(PROPERTY, THEOREMS, thorough=ctx.thorough, extractors=[])   # C14 uses no extracted table
+    build = leanbuild.ensure(PROPERTY, THEOREMS, thorough=ctx.thorough, extractors=['CanonicalName'])
     live = Live()
     r = rng.make('c14')
     n_worlds = 1500 if ctx.thorough else 60
